@@ -1067,6 +1067,137 @@ func (c *c7ctx) literalRank(prods []*c7prod) {
 	if n == 0 {
 		r.OK(rule, "parser:no-low-literal", "-", "no literal is built below primary rank")
 	}
+	// the shortcut must look past the digits: postfix operators bind tighter than the sign, so a literal may be
+	// built from `-` and digits only when no member access follows; otherwise `-1.f` — which is how the printer
+	// renders Negate(Access(1, f)) — is read as the literal -1 followed by garbage
+	for _, pr := range prods {
+		if pr.kind != "NodeValue" {
+			continue
+		}
+		rk, ok := c.rank[pr.level]
+		if !ok || rk >= langSyntax["NodeValue"].rank {
+			continue
+		}
+		construct := "parser." + fnShort(pr.fn) + ":" + pr.ctor.Name() + "~lookahead"
+		looks := false
+		for _, g := range pr.guards {
+			if c.dependsOnLookahead(g.Cond, 0, map[ssa.Value]bool{}) {
+				looks = true
+			}
+		}
+		// or: a branch on a look-ahead value decides whether the production is reached at all
+		var prodBlock *ssa.BasicBlock
+		forEachInstr(pr.fn, func(in ssa.Instruction) {
+			if in.Pos() == pr.pos && prodBlock == nil {
+				prodBlock = in.Block()
+			}
+		})
+		if prodBlock != nil && !looks {
+			reaches := func(from *ssa.BasicBlock) bool {
+				seen := map[*ssa.BasicBlock]bool{}
+				st := []*ssa.BasicBlock{from}
+				for len(st) > 0 {
+					b := st[len(st)-1]
+					st = st[:len(st)-1]
+					if seen[b] {
+						continue
+					}
+					seen[b] = true
+					if b == prodBlock {
+						return true
+					}
+					st = append(st, b.Succs...)
+				}
+				return false
+			}
+			for _, b := range pr.fn.Blocks {
+				iff, ok := lastInstr(b).(*ssa.If)
+				if !ok || !c.dependsOnLookahead(iff.Cond, 0, map[ssa.Value]bool{}) {
+					continue
+				}
+				if reaches(b.Succs[0]) != reaches(b.Succs[1]) {
+					looks = true
+				}
+			}
+		}
+		r.Check(looks, rule, construct, p.pos(pr.pos), "the sign-and-digits shortcut is taken only after looking at the token behind the digits",
+			fnShort(pr.fn)+" (rank "+itoa(rk)+") turns a sign and digits into a literal without passing through the member level and without looking at the token that follows: `-1.f` and `-1[\"f\"]` — the printer's rendering of Negate(Access(1, f)) — are read as the literal -1 followed by an unexpected token, so such a policy does not parse back")
+	}
+}
+
+// dependsOnLookahead: the condition is computed from a token beyond the current one — an element of the token list
+// at (position + k), k >= 1, read here or in a parser method the condition calls.
+func (c *c7ctx) dependsOnLookahead(v ssa.Value, depth int, seen map[ssa.Value]bool) bool {
+	if v == nil || depth > 6 || seen[v] {
+		return false
+	}
+	seen[v] = true
+	readsAhead := func(fn *ssa.Function) bool {
+		found := false
+		if fn == nil || fn.Blocks == nil {
+			return false
+		}
+		forEachInstr(fn, func(in ssa.Instruction) {
+			ia, ok := in.(*ssa.IndexAddr)
+			if !ok {
+				return
+			}
+			bo, ok := ia.Index.(*ssa.BinOp)
+			if !ok || bo.Op != token.ADD {
+				return
+			}
+			if k, ok := constInt(bo.Y); ok && k >= 1 {
+				if _, _, isField := fieldOfLoad(bo.X); isField {
+					found = true
+				}
+			}
+		})
+		return found
+	}
+	switch x := v.(type) {
+	case *ssa.Call:
+		if cal := x.Call.StaticCallee(); cal != nil && cal.Signature.Recv() != nil && namedOf(cal.Signature.Recv().Type()) == c.parserT && readsAhead(cal) {
+			return true
+		}
+		for _, a := range x.Call.Args {
+			if c.dependsOnLookahead(a, depth+1, seen) {
+				return true
+			}
+		}
+	case *ssa.UnOp:
+		if x.Op == token.MUL {
+			if fa, ok := x.X.(*ssa.FieldAddr); ok {
+				if ia, ok := fa.X.(*ssa.IndexAddr); ok {
+					if bo, ok := ia.Index.(*ssa.BinOp); ok && bo.Op == token.ADD {
+						if k, ok := constInt(bo.Y); ok && k >= 1 {
+							return true
+						}
+					}
+				}
+			}
+			if ia, ok := x.X.(*ssa.IndexAddr); ok {
+				if bo, ok := ia.Index.(*ssa.BinOp); ok && bo.Op == token.ADD {
+					if k, ok := constInt(bo.Y); ok && k >= 1 {
+						return true
+					}
+				}
+			}
+		}
+		return c.dependsOnLookahead(x.X, depth+1, seen)
+	case *ssa.BinOp:
+		return c.dependsOnLookahead(x.X, depth+1, seen) || c.dependsOnLookahead(x.Y, depth+1, seen)
+	case *ssa.Phi:
+		for _, e := range x.Edges {
+			if c.dependsOnLookahead(e, depth+1, seen) {
+				return true
+			}
+		}
+	case *ssa.Field:
+		return c.dependsOnLookahead(x.X, depth+1, seen)
+	case *ssa.Extract:
+		return c.dependsOnLookahead(x.Tuple, depth+1, seen)
+	}
+	return false
 }
 
 // sameCell: two receiver expressions denote the same local variable (its address, or a load of it).
